@@ -110,8 +110,11 @@ def main(chk, args):
         for i, c in enumerate(cases):
             for kind in KINDS:
                 b = (i + len(kind)) % 2
+                # token texts distinct per page or (cursor style) the same on every page; the caller's retry argument absent, an
+                # explicit None or a Retry object
                 allc.append(dict(id=f'{i}:{kind}', idx=i, kind=kind, pages=c['history'], base=BASES[b], reuse=(i % 3 == 0),
-                                 md=[['x-verif-a', 'v1']] if b == 0 else [], timeout=30 if b == 0 else None))
+                                 md=[['x-verif-a', 'v1']] if b == 0 else [], timeout=30 if b == 0 else None,
+                                 tokmode='same' if i % 4 == 1 else 'distinct', retry=('default', 'none', 'default', 'object')[(i + len(kind)) % 4]))
         for j, hist in enumerate(extra):
             for kind in KINDS:
                 allc.append(dict(id=f'x{j}:{kind}', idx=-1, kind=kind, pages=hist, base=BASES[j % 2], md=[['x-verif-a', 'v1']] if j % 2 == 0 else [],
